@@ -134,6 +134,11 @@ def case_param_override(case):
         return {"skip": "not a mixed system"}
     sub = shape_sys.get_sub_system([sympy.Symbol(v) for v in num[0]["state_variables"]])
     p1 = case["run_parameters"]
+    if case.get("dict_order") == "reversed":
+        # the same dictionary (==) with the inner dictionaries listing their entries in another order (a stored / merged result)
+        a0 = {k: ({kk: v[kk] for kk in reversed(list(v))} if isinstance(v, dict) else v) for k, v in ana[0].items()}
+        assert a0 == ana[0]
+        ana = [a0]
     mi = MixedIntegrator(odeiv.step_rk4, sub, shapes, analytic_solver_dict=ana[0], parameters=dict(p1),
                          spike_times={k: list(v) for k, v in case["spike_times"].items()}, max_step_size=case["max_step"], sim_time=case["sim_time"])
     mi.integrate_ode(h_min_lower_bound=1e-14, raise_errors=False, debug=True)
@@ -318,14 +323,14 @@ def run(ctx, driver):
     rng = ctx.rng("override")
     ocases = []
     for i in range(ctx.n(6, 40)):
-        sysd = json.loads(json.dumps(NUM_SYSTEMS[[0, 2, 3][i % 3]]))
+        sysd = json.loads(json.dumps(NUM_SYSTEMS[[3, 0, 2][i % 3]]))
         for d in sysd["dynamics"]:
             d.pop("upper_bound", None)
             d.pop("lower_bound", None)
         p1 = {k: repr(float(v) * rng.choice([0.5, 2.0, 1.0, 0.25])) for k, v in sysd["parameters"].items()}
-        avar = {0: "I", 2: "y", 3: "g__d"}[[0, 2, 3][i % 3]]
+        avar = {0: "I", 2: "y", 3: "g__d"}[[3, 0, 2][i % 3]]
         sim_time = rng.choice([0.03, 0.05])
-        ocases.append({"indict": sysd, "run_parameters": p1, "sim_time": sim_time, "max_step": 0.005,
+        ocases.append({"indict": sysd, "run_parameters": p1, "sim_time": sim_time, "max_step": 0.005, "dict_order": "reversed" if i % 2 == 0 else "asis",
                        "spike_times": {avar: sorted({round(rng.uniform(0.001, sim_time), 4) for _ in range(2)})},
                        "query_times": [round(rng.uniform(0.0, sim_time), 4) for _ in range(3)] + [sim_time]})
     ores = pool.run_cases("harness.props.c13", "case_param_override", ocases, timeout=150, init="_init_worker", deadline=ctx.deadline())
